@@ -107,7 +107,7 @@ def run(c):
         return h
     cases, dis, stats = rt.run_rt(c, oracle, n, k, gen_hist=gen)
     metamorphic(c, cases, 10 if c.tier == 'quick' else 60)
-    rt.decide(c, ob, dis)
+    rt.decide(c, ob, dis, oracle=oracle, gen_hist=gen)
     if c.tier == 'thorough' and ob['ok']:
         ok, log = c.leanchecker(['BVM.Props.C07'])
         if not ok:
